@@ -133,6 +133,8 @@ struct C07 : public Driver {
         else if (k < 5) { sc["strategy"] = "random"; static const std::vector<int> dens = { 4, 32, 256, 2048 }; sc["den"] = gs.pick(dens); }
         else { sc["strategy"] = "pct"; sc["d"] = (int)gs.range(1, 3); }
         sc["seed"] = (long long)(gs.next() >> 2); sc["funcPoints"] = gs.chance(3, 4);
+        // a 104-deep document with multi-level numbering makes tens of millions of function calls: schedule at allocation and I/O points only
+        { bool anyDeep = false; for (auto& d : gd) if (d.xml.find("<d><d><d><d>") != std::string::npos) anyDeep = true; if (anyDeep) sc["funcPoints"] = false; }
         p["sched"] = sc;
         return p;
     }
